@@ -76,7 +76,9 @@ def unmapPt (s : Sc) (y : Rat) : I :=
     -- "overflows" (the exponential of a huge exponent is not computed)
     let x : I :=
       if e.lo > 720 then ⟨pow2 1030, pow2 1040⟩
-      else if e.hi > 720 then ⟨(I.exp ⟨e.lo, e.lo⟩).lo, pow2 1040⟩
+      -- (`math.Exp` of this toolchain's amd64 assembly returns +Inf from 709.437 on - the top 30 % of the last binade
+      -- is never produced: from there on the infinity is what the standard library delivers)
+      else if e.hi > 70943 / 100 then ⟨(I.exp ⟨e.lo, e.lo⟩).lo, pow2 1040⟩
       else I.exp e
     let x := ⟨x.lo * (1 - 8 * eps), x.hi * (1 + 8 * eps)⟩
     if neg then I.neg x else x
